@@ -56,7 +56,7 @@ def run(c):
     cur, curn = None, 0
     with open(trace) as f:
         for line in f:
-            if cur is None or (curn >= 80000 and '"ev":"reset"' in line[:60]):
+            if cur is None or (curn >= 80000 and '"ev":"reset"' in line):
                 if cur:
                     cur.close()
                 p = os.path.join(c.scratch, "chunk%d.ndjson" % (len(chunks) + 1))
